@@ -92,6 +92,10 @@ def gen_program(rng, tier):
             _delete_assignment(tree, rej[0])
     # a register may be told to keep its value explicitly: r.next |= r
     for a, _l in walk_assignments(tree):
+        if targets[a['assign']]['kind'] == 'mem' and rng.random() < 0.25:
+            # mem[dst] |= mem[src] ^ k: the right-hand side, written inside the same statement,
+            # indexes the memory that is being written
+            a['val'] = 'm%d' % rng.randrange(4)
         if targets[a['assign']]['kind'] == 'reg' and rng.random() < 0.12:
             a['val'] = 'self'
     prog = {'targets': targets, 'tree': tree, 'block': rng.choice(['fresh', 'fresh', 'same']),
@@ -382,7 +386,7 @@ def make_targets(prog, pi, ctx, res, adopt=True):
                 live.append(shared_mem)
                 res.probes.hit('memory_written_from_two_blocks')
             else:
-                live.append(pyrtl.MemBlock(8, 2, name=name, max_write_ports=None,
+                live.append(pyrtl.MemBlock(8, 2, name=name, max_write_ports=None, max_read_ports=None,
                                            asynchronous=True))
     return live
 
@@ -443,6 +447,10 @@ def elaborate(prog, pi, ctx, res, share_next=None, shared=None):
                 if prog['targets'][a['assign']]['kind'] != 'reg':
                     return 9                # (only a register can be told to keep its value)
                 return live[a['assign']]
+            if isinstance(v, str) and v[0] == 'm':
+                if prog['targets'][a['assign']]['kind'] != 'mem':
+                    return 9
+                return live[a['assign']][int(v[1:])] ^ 0x5a
             return ctx.data[int(v[1:])] if isinstance(v, str) else v
 
         def tick():
@@ -715,6 +723,7 @@ def run(case, res):
             sim.step(ins)
             res.cycles += 1
             written = {}           # id(MemBlock) -> addresses written this cycle
+            memsnap = {mid: dict(v[0]) for mid, v in memmodel.items()}
             for pi, live, prog in ctx.programs:
                 act = active_assignments(prog['tree'], cyc['p'])
                 by_t = {}
@@ -733,6 +742,11 @@ def run(case, res):
                             if t['kind'] != 'reg':
                                 return 9
                             return model[(pi, ti)]          # r.next |= r: keeps what it holds
+                        if isinstance(a['val'], str) and a['val'][0] == 'm':
+                            if t['kind'] != 'mem':
+                                return 9
+                            # what the memory held before this cycle's writes
+                            return memsnap[id(live[ti])].get(int(a['val'][1:]), 0) ^ 0x5a
                         return cyc['d'][int(a['val'][1:])] if isinstance(a['val'], str) else a['val']
                     dflt = None
                     if prog['defaults'] is not None and str(ti) in prog['defaults']:
